@@ -93,7 +93,10 @@ def form_kind(sx, where):
             depth -= 1
             if depth == 0:
                 break
-    return "%s/%s/%s" % (head, "scalar" if n_idx == 0 else "array%d" % n_idx, where)
+    kind = "scalar" if n_idx == 0 else "array%d" % n_idx
+    if "(. " in target:
+        kind = "component-access%d" % n_idx
+    return "%s/%s/%s" % (head, kind, where)
 
 
 def failing_record(case, bound, impl, spec):
@@ -170,6 +173,22 @@ def run(ctx, proofs):
                       no_input=True)
     # third audit: the source on which mirror and implementation disagree is at hand - it is reported as the failing
     # input of the replay (it used to be a `no-failing-input-found` line although `liftfull_src` was in the record)
+    # fourth audit: a difference confined to the rich dump (metas of expression nodes / blocks, declaration records) with
+    # the standard dump equal, on a source on which the searches found nothing (the walk oracle contains the source
+    # execution, every C12 clause holds on the real graph), is a changed SHAPE without a failing input: one
+    # `no-failing-input-found` line for the class instead of a violation with a bogus failing input per source
+    walk_bad_srcs = {d["src"] for d in lf["walk_failures"]} | {d["src"] for d in lf["c12_bad"]}
+    shape_only = [d for d in lf_dis if str(d.get("differs_in", "")).startswith("rich dump only") and d["src"] not in walk_bad_srcs]
+    lf_dis = [d for d in lf_dis if d not in shape_only]
+    if shape_only:
+        d = shape_only[0]
+        ctx.violation("content-carrying lifting mirror Model.LiftFull and the real into_cfg differ in the rich dump only on %d "
+                      "definitions (metas of expression nodes / blocks, log strings, tags or declaration records; statements, "
+                      "statement metas, blocks and edges are equal, the walk of the real graph contains the source execution and "
+                      "every clause of C12 holds on them): shape changed, no failing input found; first source: %s"
+                      % (len(shape_only), d["src"][:300]),
+                      {"broken": "correspondence liftfull, rich dump only (Model.LiftFull vs intermediate_representation/lifting.rs)",
+                       "first": d, "count": len(shape_only)}, no_input=True)
     for d in lf_dis[:3]:
         ctx.violation("content-carrying lifting mirror Model.LiftFull and the real into_cfg disagree on this source (%d definitions "
                       "in all; %s mode, label %s; differs in: %s): the theorems C13_liftfull_*, C04_liftfull_*, C08_liftfull_* "
@@ -222,9 +241,11 @@ def run(ctx, proofs):
         "random_size_histogram": {str(k): v for k, v in sorted(sizes.items())},
         "compound_assignments_checked": n_compound,
         "compound_kinds_seen": len(form_kinds),
-        "compound_kinds_possible": 14 * 3 * 2,
-        "compound_kinds_rule": "operator (12 op= tokens, ++, --) x target (scalar, a[i], a[i][j]) x position (statement, for "
-                               "header); each lifted assignment compared, operands in order, with Spec.SurfaceSpec.expected_statement",
+        "compound_kinds_possible": 14 * 10 * 2,
+        "compound_kinds_rule": "operator (12 op= tokens, ++, --) x target (scalar; 1, 2, 3, 4 array indices; component access with 0, 1, "
+                               "3 indices behind the port; component array c[i].z, c[i][j].z[k] - fourth audit: 3+ accesses and "
+                               "component accesses were never rendered) x position (statement, for header); each lifted assignment "
+                               "compared, operands AND the whole access list in order, with Spec.SurfaceSpec.expected_statement",
         "compound_kinds_least_seen": sorted(form_kinds.items(), key=lambda kv: kv[1])[:3],
         "compound_comparisons": "ONE comparison per lifted assignment (implementation vs x[..] = x[..] op e); it is made against "
                                 "Spec.SurfaceSpec.expected_statement and against Model.Shortcuts.parse_substitution, which are the "
@@ -271,7 +292,10 @@ def run(ctx, proofs):
             "statements_sharing_a_meta": dict(lf["shared_meta"], rule="per distinct desugared definition: do two statements that "
                                               "become IR statements carry the same meta (LiftFullReport.stmt_metas_distinct_b = false)? "
                                               "The by-meta theorems (C13_liftfull_skeleton, _cfg_contains_source*) do not order such "
-                                              "statements; C13_liftfull_content_provenance does"),
+                                              "statements; C13_liftfull_content_provenance does. `evaluated - definitions_with_..` is the "
+                                              "number of definitions on which the hypothesis NoDup metas of "
+                                              "C13_liftfull_walk_statements_are_images holds (decided by stmt_metas_distinct_b, "
+                                              "C13_stmt_metas_distinct_b_sound)"),
             "hypothesis_desugared_shape": lf["shape"],
             "containment_oracle": dict(lf["walk"], failures=len(lf["walk_failures"]),
                                        rule="per distinct desugared definition that lifts: Spec.CfgSpec.trace_tree of its skeleton "
@@ -282,7 +306,15 @@ def run(ctx, proofs):
                                                  "note": "filed under C12 (lib/props/C12.py runs the same evaluation); counted here"},
             "samples": lf["samples"][:1] if not lf_dis else lf_dis[:1],
         },
-        "open_statements": [],   # C13_exhausted_equality is proved (coq/proofs/LiftExhausted.v)
+        "open_statements": [
+            "for definitions in which two statements that become IR statements SHARE a meta (counted: "
+            "liftfull.statements_sharing_a_meta) no theorem joins the positional content-level provenance "
+            "(C13_liftfull_content_provenance) with the walk: `in the order executed` is there the by-meta containment and the "
+            "block-order Forall2, two facts; for the other definitions C13_liftfull_walk_statements_are_images does the join "
+            "(its hypothesis NoDup metas is evaluated per definition, flag MD)",
+            "`image` is the MIRROR's per-statement function LiftFull.lift_stmt; that it is intermediate_representation/lifting.rs "
+            "is the text comparison of the liftfull stage (observed on generated definitions), not a theorem",
+        ],
     })
     ctx.assumptions += [
         "the skeleton abstraction of C12 (lifting looks only at statement kinds); leaf statements and conditions are "
@@ -305,7 +337,7 @@ def run(ctx, proofs):
         "C13_liftfull_skeleton identifies a statement / condition by an arbitrary function of its META: two statements with "
         "equal metas (the Declaration / Substitution statements one declaration list is split into, the statements a tuple or "
         "anonymous-component statement is expanded into) get the same skeleton id and are not ordered by the by-meta theorems "
-        "(C13_liftfull_cfg_contains_source_injective_key says exactly what an injective key gives); their order is stated by "
+        "(C13_liftfull_walk_statements_are_images joins content and walk ids for bodies WITHOUT such statements); their order is stated by "
         "C13_liftfull_content_provenance (Forall2 image); how many definitions have such statements is counted "
         "(liftfull.statements_sharing_a_meta)",
         "the text of the reports of lifting (shadowing warning, parameter collision: code, message, labels) is "
